@@ -16,6 +16,7 @@ RVALUES = {3: 'i3', 1.5: 'f15', 'good': 'good', 7: 'i7', 5: 'i5'}
 FOREIGN = {
     'valid': ('foreign_valid.csv', b'cluster_id,foreignfield\n0,5\n2,7\n'),
     'multi': ('foreign_multi.tsv', b'cluster_id\tfa\tfb\n0\t\t5\n2\t7\t\n'),
+    'samefield': ('foreign_quality.csv', b'cluster_id,quality\n0,5\n4,7\n'),
     'empty': ('foreign_empty.csv', b''),
     'garbage': ('foreign_garbage.tsv', b'\x00\xff\xfe,,\n"unterminated\n1,2,3\n\t\t\t'),
     'headeronly': ('foreign_header.tsv', b'cluster_id\tfoo\n'),
@@ -203,15 +204,15 @@ def random_trace(ctx, d, rng, k, rid0, length):
 
 def run(ctx):
     ctx.rule = ('S->C: every history of 4 operations ending in a reload over {save_spike_clusters(2 reassignments), '
-                'save_metadata(2 fields x 4 mappings incl. None entries and an all-None mapping), write one of 7 '
-                'foreign TSV/CSV files (valid, two value columns with empty cells, empty, binary garbage, header only, short row, cluster_info), export the '
+                'save_metadata(2 fields x 4 mappings incl. None entries and an all-None mapping), write one of 8 '
+                'foreign TSV/CSV files (valid, two value columns with empty cells, a .csv carrying a field the model also saves, empty, binary garbage, header only, short row, cluster_info), export the '
                 'waveform subset, close, reload} emitted by TLC (~6k), plus TLC-simulated histories of 12 operations, '
                 'replayed on a generated dataset with raw data; every reload is compared with the specification '
                 '(assignment, metadata dictionary, subset store, templates / times unchanged, store waveforms = raw '
                 'windows). Non-trivial = the history holds a metadata save or a foreign file. C->S: random '
                 'histories of 25 operations validated per operation by Trace_World.')
-    ctx.assumptions += ['foreign files use their own field names (the winner among two files with the same field '
-                        'depends on the directory enumeration order)',
+    ctx.assumptions += ['two foreign files never carry the same field (the winner would depend on the directory '
+                        'enumeration order); a foreign .csv may carry a field the model saves: *.csv is read before *.tsv',
                         'metadata values: int, float, non-numeric string, None']
     ctx.model_check('World', 'MC_World.cfg', expect_actions=('Next',), timeout=1800,
                     note='file-based reload = dictionary reference model for every reachable directory state')
